@@ -188,12 +188,23 @@ Definition dict_has {A} (d : dict A) (k : string) : bool := match dict_get d k w
 
 Record pstate := PS { ps_atoms : list ratom; ps_index : dict nat; ps_aniso : dict bool }.
 
+(* sorted(range(n), key = (setter not in first) + (setter in last)) : a stable three-way partition of the row *)
+Definition phase (so : setter_order) (t : target) : nat :=
+  match t with
+  | TAdpType => match so with SOColumn => 1 | _ => 0 end
+  | TCartn _ => match so with SOTypeFirstCartnLast => 2 | _ => 1 end
+  | _ => 1
+  end%nat.
+Definition in_phase (so : setter_order) (k : nat) (p : setter * val) : bool := Nat.eqb (phase so (s_target (fst p))) k.
+Definition order_row (so : setter_order) (r : list (setter * val)) : list (setter * val) :=
+  filter (in_phase so 0) r ++ filter (in_phase so 1) r ++ filter (in_phase so 2) r.
+
 Definition site_row (does_adp : bool) (st : pstate) (lab : string) (r : list (setter * val)) : res pstate :=
   if String.eqb lab "?" then Ok st
   else match row_status r with
        | Some e => Err e
        | None =>
-           let a := run_row init_atom r in
+           let a := run_row init_atom (order_row the_setter_order r) in
            Ok (PS (ps_atoms st ++ [a]) (dict_set (ps_index st) lab (List.length (ps_atoms st)))
                   (if does_adp then dict_set (ps_aniso st) lab (st_aniso (a_adp a)) else ps_aniso st))
        end.
